@@ -256,9 +256,12 @@ def parse_reports(text_lines, repo_src=None):
                                     text="\n".join(text_lines[i:min(j + 12, n)])))
             i = j
             continue
-        m = re.match(r".*: (\S+):(\d+): (\S+): Assertion `(.*)' failed", ln)
+        m = re.match(r".*?: (\S+):(\d+): (.*?): Assertion `(.*)' failed", ln)
         if m:
-            key = "abort:assert:%s:%s" % (m.group(3), _norm_msg(m.group(4)))
+            # gcc prints the function name, clang its full signature
+            fn = re.search(r"([A-Za-z_]\w*)\s*\(", m.group(3))
+            fn = fn.group(1) if fn else m.group(3).split()[-1]
+            key = "abort:assert:%s:%s" % (fn, _norm_msg(m.group(4)))
             reports.append(dict(tool="abort", kind="assert", key=key, text=ln))
         i += 1
     return reports
@@ -647,6 +650,8 @@ CANARY_EXPECT = {
     "ubsan": lambda r: any(x["tool"] == "ubsan" for x in r.reports),
     "hang": lambda r: r.status == "timeout",
     "abort": lambda r: r.status == "crash",
+    "assert": lambda r: r.status == "crash" and any(
+        x["key"].startswith("abort:assert:op_canary") for x in r.reports),
 }
 
 
@@ -662,7 +667,8 @@ def monitor_canaries(binaries, workroot, memcheck_bin=None):
     errs = []
     seen = {}
     for variant, binary in sorted(binaries.items()):
-        names = ["leak", "overflow_b", "uaf_b", "ubsan", "hang", "abort"]
+        names = ["leak", "overflow_b", "uaf_b", "ubsan", "hang", "abort",
+                 "assert"]
         if variant != "gasan":
             names[1:1] = ["overflow", "uaf"]
         cases = [("canary_" + w, "canary %s 1\n" % w) for w in names]
